@@ -23,6 +23,7 @@ Opt   == INSTANCE MC_Opt
 Scope == INSTANCE MC_Scope
 Hist  == INSTANCE MC_History
 Alias == INSTANCE MC_Alias
+Det   == INSTANCE MC_Det
 
 MkRow(fam, prog) ==
   LET cc == Compile(prog)
@@ -40,6 +41,7 @@ Init ==
   \/ \E sh \in 1..14 : row = [k |-> "a0", sh |-> sh, done |-> FALSE]
   \/ row = [k |-> "h0", done |-> FALSE]
   \/ \E k1 \in 1..NK : row = [k |-> "o0", k1 |-> k1, done |-> FALSE]
+  \/ \E a \in 1..Det!NK, b \in 1..Det!NK : row = [k |-> "d0", a |-> a, b |-> b, done |-> FALSE]
 
 Next ==
   /\ ~row.done
@@ -58,6 +60,14 @@ Next ==
              row' = MkRow("alias", Alias!Shape(row.sh, Alias!Sources[s], Alias!Muts[m]))
      \/ /\ row.k = "h0"
         /\ \E sc \in 1..2 : row' = MkRow("history", IF sc = 1 THEN Hist!Script1 ELSE Hist!Script2)
+     \/ \* hash literals whose keys print alike and repeat: the order of the emitted pairs
+        /\ row.k = "d0"
+        /\ \/ row' = MkRow("det", Det!Observe(Det!HashLit(<<row.a, row.b>>)))
+           \/ \E c \in 1..Det!NK : row' = MkRow("det", Det!Observe(Det!HashLit(<<row.a, row.b, c>>)))
+           \/ \E c \in 1..Det!NK, d \in 1..Det!NK :
+                /\ (row.a + 2 * row.b + 3 * c + 5 * d + Seed - 1) % (IF Tier = "thorough" THEN 3 ELSE 17) = 0
+                /\ row' = MkRow("det", Det!Observe(Det!HashLit(<<row.a, row.b, c, d>>)))
+           \/ \E c \in 1..Det!NK : row' = MkRow("det", <<<<"ret", <<"call", "string", <<<<"arr", <<Det!Nested(<<row.a, row.b>>, <<c, row.a>>)>>>>>>>>>>>>)
      \/ /\ row.k = "o0"
         /\ \E m1 \in 0..Opt!NC, k2 \in 1..NK, m2 \in 0..Opt!NC, sh \in {"nest2", "seq2", "first"} :
              /\ (m1 > 0 => Opt!UsesC(row.k1)) /\ (m2 > 0 => Opt!UsesC(k2)) /\ (m1 > 0 \/ m2 > 0)
